@@ -268,23 +268,35 @@ def runner_fold(prog, repetitions, flags=None, seed=77):
             return 0
         return h
     hooks = {"CommandLineArguments::getRepeatCount": lambda *a_: len(repetitions), "CommandLineArguments::getShuffleSeed": lambda *a_: seed,
-             "CommandLineTestRunner::initializeTestRun": lambda *a_: (log.append(("initialize",)), 0)[1],
+             "CommandLineArguments::getGroupFilters": lambda *a_: 81, "CommandLineArguments::getNameFilters": lambda *a_: 82,
              "TestResult::getFailureCount": lambda *a_: repetitions[max(0, min(state["rep"], len(repetitions) - 1))][0],
              "TestResult::isFailure": lambda *a_: repetitions[max(0, min(state["rep"], len(repetitions) - 1))][1]}
-    for g in ("isListingTestGroupNames", "isListingTestGroupAndCaseNames", "isListingTestLocations", "isReversing", "isShuffling"):
-        hooks["CommandLineArguments::" + g] = (lambda *a_, g=g: flags.get(g, 0))
-    for m in ("reverseTests", "shuffleTests", "runAllTests", "listTestGroupNames", "listTestGroupAndCaseNames", "listTestLocations"):
+    # (initializeTestRun is folded with the runner: the configuration it applies is seen as the registry's setters)
+    for g_ in prog.methods_of("CommandLineArguments"):
+        if g_.ret in ("bool", "_Bool") and not g_.params and g_.kind == "method":
+            hooks.setdefault(g_.qn, (lambda *a_, g=g_.name: flags.get(g, 0)))
+    SETTERS = ("setGroupFilters", "setNameFilters", "setRunTestsInSeperateProcess", "setRunIgnored")
+    for m in ("reverseTests", "shuffleTests", "runAllTests", "listTestGroupNames", "listTestGroupAndCaseNames", "listTestLocations") + SETTERS:
         hooks["TestRegistry::" + m] = reg(m)
+    for m in ("verbose", "color"):
+        hooks["TestOutput::" + m] = (lambda *a_: 0)
+    for m in ("setCrashOnFail", "setRethrowExceptions", "restoreDefaultTestTerminator", "resetCrashMethod"):
+        hooks["UtestShell::" + m] = (lambda *a_: 0)
     for m in ("print", "printTestRun"):
         hooks["TestOutput::" + m] = (lambda *a_: 0)
     ev = Evaluator(prog, rt, env={"registry_": 11, "arguments_": 22, "output_": 33}, calls=hooks)
     ev.pass_object = True
+    ev.optional_stubs = set(hooks)
     ev.run_blocks(rt.entry, max_steps=6000)
     events = []
     hook_i = 0
     for nm, args, node in ev.trace:
         if nm == "construct TestResult":
             events.append(("new-result",))
+        elif nm in ("TestRegistry::setGroupFilters", "TestRegistry::setNameFilters"):
+            events.append((nm.split("::")[-1],) + tuple(x for x in (args or [])[1:] if isinstance(x, int)))
+            if ("setGroupFilters", 81) in events and ("setNameFilters", 82) in events and ("initialize",) not in events:
+                events.append(("initialize",))        # both filter lists of the command line have reached the registry
         elif nm.startswith("TestRegistry::") and nm.split("::")[-1] in ("reverseTests", "shuffleTests", "runAllTests", "listTestGroupNames", "listTestGroupAndCaseNames", "listTestLocations"):
             events.append((nm.split("::")[-1],) + tuple(x for x in (args or [])[1:] if isinstance(x, int)))
     r = getattr(ev, "ret", None)
